@@ -395,3 +395,33 @@ Proof.
   - split; [exact ex_addr1_ok|]. unfold num_ok, u64_max. repeat split; try lia.
     constructor; [exact (proj2 ex_addr2_ok)|constructor].
 Qed.
+
+(* ------------------------------------------------------------------------------------ *)
+(* the check-in event on the wire when the key encoder is FromECDSAPub (fixed width) *)
+
+Section CheckInWire.
+
+Variable point : Type.
+Variable key : Type.
+Variable cs : bytes -> list bool.
+Variable enc_pt : point -> bytes.
+Variable pt_of : bytes -> point.
+Variable key_of : bytes -> key.
+Variable key_x key_y : key -> N.     (* the affine coordinates of a key *)
+
+Definition marshal_key (k : key) : bytes := marshal_pubkey (key_x k) (key_y k).
+
+Lemma app_checkin_wire s k :
+  app_abci_event point key cs enc_pt marshal_key pt_of key_of (App.EvCheckIn s k)
+  = Ok (bs "shutter.check-in",
+        [mk_attr (bs "Sender") (address_hex cs s) true;
+         mk_attr (bs "EncryptionPublicKey") (b64_encode (marshal_key (key_of k))) false]) /\
+  length (marshal_key (key_of k)) = 65%nat /\
+  length (b64_encode (marshal_key (key_of k))) = 87%nat /\
+  b64_decode (b64_encode (marshal_key (key_of k))) = Some (marshal_key (key_of k)).
+Proof.
+  split; [reflexivity|]. split; [apply marshal_pubkey_length|].
+  split; [apply marshal_pubkey_text_length|]. apply b64_roundtrip. apply marshal_pubkey_ok.
+Qed.
+
+End CheckInWire.
